@@ -156,6 +156,10 @@ func (d *Deriv) walk(v ssa.Value, out rootSet, seen map[ssa.Value]bool) {
 		// a map or slice handed to a function of the analysed packages that
 		// writes into that parameter is filled from the call's other arguments
 		d.filledBy(x, out, seen)
+		// a buffer filled with copy(buf[..], src)
+		if ms, isMS := x.(*ssa.MakeSlice); isMS {
+			d.copiedInto(ms, out, seen, 0)
+		}
 	case *ssa.MakeClosure:
 		out[x] = true
 		for _, b := range x.Bindings {
@@ -208,6 +212,29 @@ func (d *Deriv) walk(v ssa.Value, out rootSet, seen map[ssa.Value]bool) {
 		d.walkCall(x, -1, out, seen)
 	default:
 		out[v] = true
+	}
+}
+
+// copiedInto: sources of copy(dst, src) calls whose dst is v or a re-slice of v.
+func (d *Deriv) copiedInto(v ssa.Value, out rootSet, seen map[ssa.Value]bool, depth int) {
+	refs := v.Referrers()
+	if refs == nil || depth > 3 {
+		return
+	}
+	for _, ref := range *refs {
+		switch r := ref.(type) {
+		case *ssa.Slice:
+			if r.X == v {
+				d.copiedInto(r, out, seen, depth+1)
+			}
+		case *ssa.ChangeType:
+			d.copiedInto(r, out, seen, depth+1)
+		case ssa.CallInstruction:
+			com := r.Common()
+			if b, isB := com.Value.(*ssa.Builtin); isB && b.Name() == "copy" && len(com.Args) == 2 && com.Args[0] == v {
+				d.walk(com.Args[1], out, seen)
+			}
+		}
 	}
 }
 
